@@ -108,25 +108,45 @@ def mul (a b : Mag α) : Mag α :=
   | .int i, .int j => .int (i * j)
   | _, _ => .flt (a.toFlt * b.toFlt)
 
+/-- the exception `_div` raises for a zero divisor: Decimal 0/0 signals InvalidOperation,
+    everything else is a ZeroDivisionError (float/int, or decimal.DivisionByZero) -/
+def divErr (a b : Mag α) : Option Exc :=
+  if b.isZero then
+    (if (a.isDec || b.isDec) && a.isZero then some .invalidOperation else some .zeroDivision)
+  else none
+
 /-- `_div`: true division; `int / int` is a float; a zero divisor raises. -/
 def div (a b : Mag α) : Except Exc (Mag α) :=
-  if b.isZero then .error .zeroDivision else
-  if a.isDec || b.isDec then .ok (.dec (a.toRat / b.toRat)) else
-  .ok (.flt (a.toFlt / b.toFlt))
+  match divErr a b with
+  | some e => .error e
+  | none =>
+    if a.isDec || b.isDec then .ok (.dec (a.toRat / b.toRat)) else
+    .ok (.flt (a.toFlt / b.toFlt))
 
 def neg : Mag α → Mag α
   | .int i => .int (-i)
   | .flt x => .flt (-x)
   | .dec r => .dec (-r)
 
+/-- the exception `x ** n` raises at zero: `0 ** negative` is a ZeroDivisionError for int/float;
+    `Decimal(0) ** 0` signals InvalidOperation; `Decimal(0) ** negative` is `Infinity`
+    (non-finite Decimals are outside the model). -/
+def powErr (a : Mag α) (n : Int) : Option Exc :=
+  if a.isZero then
+    (if a.isDec then (if n == 0 then some .invalidOperation else if n < 0 then some .unmodelled else none)
+     else if n < 0 then some .zeroDivision else none)
+  else none
+
 /-- `x ** n` for a Python `int` n (`Quantity.__pow__`, `scale**exponent`):
-    `int ** negative` is a float and `0 ** negative` raises. -/
+    `int ** negative` is a float. -/
 def powInt (a : Mag α) (n : Int) : Except Exc (Mag α) :=
-  if n < 0 && a.isZero then .error .zeroDivision else
-  match a with
-  | .int i => if n ≥ 0 then .ok (.int (i ^ n.toNat)) else .ok (.flt (FloatLike.powInt (FloatLike.ofInt i : α) n))
-  | .flt x => .ok (.flt (FloatLike.powInt x n))
-  | .dec r => .ok (.dec (ipow r n))
+  match powErr a n with
+  | some e => .error e
+  | none =>
+    match a with
+    | .int i => if n ≥ 0 then .ok (.int (i ^ n.toNat)) else .ok (.flt (FloatLike.powInt (FloatLike.ofInt i : α) n))
+    | .flt x => .ok (.flt (FloatLike.powInt x n))
+    | .dec r => .ok (.dec (ipow r n))
 
 def lt (a b : Mag α) : Bool :=
   match a, b with
